@@ -403,8 +403,20 @@ func (m *marshalledArea) ToGeoJSON() geojson.GeoJSON {
 	return b6.AreaFeatureToGeoJSON(m)
 }
 
-func (m marshalledArea) References() []b6.Reference {
-	panic("not implemented")
+func (m *marshalledArea) References() []b6.Reference {
+	m.lock.Lock()
+	defer m.lock.Unlock()
+	m.fillGeometry()
+	references := make([]b6.Reference, 0, m.geometry.Len())
+	for i := 0; i < m.geometry.Len(); i++ {
+		if ids, ok := m.geometry.PathIDs(i); ok {
+			for _, id := range ids {
+				typ, ns := id.TypeAndNamespace.Split()
+				references = append(references, b6.FeatureID{Type: typ, Namespace: m.fb.NamespaceTable.Decode(ns), Value: id.Value})
+			}
+		}
+	}
+	return references
 }
 
 func (m marshalledArea) Reference(i int) b6.Reference {
@@ -494,8 +506,12 @@ func (m *marshalledRelation) ToGeoJSON() geojson.GeoJSON {
 	return b6.RelationFeatureToGeoJSON(m, m.byID)
 }
 
-func (m marshalledRelation) References() []b6.Reference {
-	panic("not implemented")
+func (m *marshalledRelation) References() []b6.Reference {
+	references := make([]b6.Reference, 0, m.Len())
+	for i := 0; i < m.Len(); i++ {
+		references = append(references, m.Member(i).ID)
+	}
+	return references
 }
 
 func (m marshalledRelation) Reference(i int) b6.Reference {
